@@ -276,7 +276,7 @@ def run(prop, tier, seed, only_case=None, quiet=False):
     print(l)
   verdict = 1 if unknown else (2 if inconclusive else 0)
   if not quiet:
-    print(f'{prop} {tier} seed={seed}: cases={len(executed)} evaluations={n_eval} distinct_nontrivial={len(nontrivial_keys)} '
+    print(f"{prop} {tier} seed={seed}: cases={len(executed)} evaluations={cov['evaluations'] if only_case is None else n_eval} distinct_nontrivial={cov['distinct_nontrivial'] if only_case is None else len(nontrivial_keys)} "
           f'violations={len(unknown)} known={sum(known_hits.values())} aborts={len(crash_events)} '
           f'inconclusive={len(inconclusive)} wall={wall:.1f}s -> '
           + {0: 'HELD on what was observed', 1: 'VIOLATED', 2: 'INCONCLUSIVE'}[verdict])
